@@ -22,12 +22,12 @@ def run(ctx):
             ctx.corr(hx, ["lock", "--n", "150", "--len", "40"], cases_name="cases%d.v" % k)
         ctx.seed -= 4000
         ctx.corr(hx, ["reent", "--n", "400"], cases_name="reent.v")
-        ctx.corr(hx, ["conc", "--runs", "1500"], cases_name="conc.v", timeout=1500)
+        ctx.corr(hx, ["conc", "--runs", "1500", "--fresh", "60000"], cases_name="conc.v", timeout=1500)
         ctx.corr(hx, ["sched", "--n", "4000"], cases_name="sched.v")
     else:
         ctx.corr(hx, ["lock", "--n", "70", "--len", "30"])
         ctx.corr(hx, ["reent", "--n", "40"], cases_name="reent.v", timeout=300)
-        ctx.corr(hx, ["conc", "--runs", "150"], cases_name="conc.v")
+        ctx.corr(hx, ["conc", "--runs", "150", "--fresh", "6000"], cases_name="conc.v")
         # sched holds writers at callback boundaries and has no global watchdog of its own: a hang is reported by the
         # harness timeout (normal run time 2 s)
         ctx.corr(hx, ["sched", "--n", "400"], cases_name="sched.v", timeout=240)
@@ -36,6 +36,7 @@ def run(ctx):
         "model assumption (interface of C13): callbacks of a Variable/Set run synchronously, once per change, in registration order",
         "guards of the theorems: the derived value is not written directly (it is itself a Variable/Set); an unsubscribe function of DerivedSet.InheritFrom is called at most once; compute functions do not depend on the current value; list arguments of set operations are duplicate-free (they are ds.Set values); EvictionState slots are modelled as unbounded N (Evict(max) of the slot type is a directed regression case, fix 2c4b512)",
         "concurrency: free-running runs with <= 4 goroutines and a quiescence barrier, compared with the defining function in Go; every run under a 20 s watchdog; directed schedules for the repaired D14b (blocking subscriber) and D14c (hook)",
+        "get-or-create / first use: in the models a lookup-or-insert (the stored event of a slot in EV, the record of an element in SS, the pending entry in WG/WGI, the first subscription of an input or source in DV/SN/CT) is ONE atomic step of the calling operation, so two callers of the same new key always get the same object; the proofs do not cover an implementation (or helper package such as ds/shrinkingmap) in which that step can run twice. It is tied to the code by the barrier-released rounds of `conc --fresh` (fresh.go): 2-4 goroutines leave a spin barrier within nanoseconds into the FIRST operations on fresh objects (EvictionEvent of the same never-requested slot then Evict; InheritFrom / Add of the same new element / SubtractReactive / OnUpdate on never-subscribed sets; Monitor on a fresh counter; Add of the same new element to a fresh WaitGroup / SortedSet; NewDerivedVariable2 / InheritFrom over never-subscribed variables), judged at quiescence in Go only: the defining function of the kind, every handed-out event of a slot <= LastEvictedSlot triggered and its OnTrigger callbacks run exactly once, one event object per unevicted slot, exactly one of the racing Add calls of a new element returns true; sampled schedules (6000 rounds quick), not a proof; skipped and counted (fresh:skipped-single-processor) on a machine with fewer than 2 CPUs",
         "forced schedules (sched): one held writer per boundary x one or two further writers, each writer performs one Set; a writer counts as blocked when its goroutine is parked on a lock (runtime wait state); DerivedVariable3/4 and inheriting inputs are judged in Go only (the interleaving model DVI has two inputs)",
     ]
 
